@@ -41,11 +41,11 @@ def gen_db(rng):
         cfg = {"p_id": 0.85, "p_parent": 0.7, "types": ["gene", "mRNA", "exon", "CDS"], "seqids": ["chr1", "chr2"],
                "pool": [1, 5, 10, 20, 30, 40], "strands": ["+", "-"]}
         feats = G.gff3_batch(rng, rng.randint(2, 10), cfg, unique_ids=True)
-        return {"fmt": "gff3", "feats": feats}
+        return {"fmt": "gff3", "feats": feats, "directives": rng.choice([[], ["gff-version 3"], ["gff-version 3", "species x"]])}
     feats = []
     while not feats:
         feats = G.gtf_annotation(rng, {"max_genes": 2})
-    return {"fmt": "gtf", "feats": feats}
+    return {"fmt": "gtf", "feats": feats, "directives": rng.choice([[], [], ["gtf-version 2.2"]])}
 
 
 IDPOOL = G.IDS + ["exon_1", "CDS_1", "G1", "T1", "T2", "nope", "mRNA_1", "gene_1"]
@@ -120,7 +120,7 @@ def gen(rng, tier):
             "refuse_fault": None, "do_a": rng.random() < 0.6, "gc_at": rng.randrange(14),
             "old_state": rng.choice(["as_imported", "as_imported", "as_imported", "emptied", "partly_deleted"]),
             "race": rng.random() < 0.2, "race_seed": rng.getrandbits(32), "live_generator": rng.random() < 0.6,
-            "wal_old": rng.random() < 0.15}
+            "wal_old": rng.random() < 0.15, "prior_import": rng.random() < 0.6}
     r = rng.random()
     if r < 0.3:
         case["refuse_fault"] = {"frac": rng.random(), "mode": rng.choice(["error", "crash", "cancel"])}
@@ -199,7 +199,10 @@ def _dial(d):
 
 
 def _src(d, form):
-    return G.source_spec(None, d["feats"], form=form, d=_dial(d))
+    spec = G.source_spec(None, d["feats"], form=form, d=_dial(d))
+    if "text" in spec and d.get("directives"):
+        spec["text"] = "".join("##%s\n" % x for x in d["directives"]) + spec["text"]
+    return spec
 
 
 def run(case):
@@ -406,6 +409,12 @@ def run(case):
                 n.close()
                 n = w.node()
             # force=True: exactly the fresh import of the new input
+            if not V and n.alive and case.get("prior_import", True):
+                # (the same process has just imported another annotation into another database: nothing of it - directives,
+                #  dialect, counters - may show up in what follows)
+                call(n, {"op": "create", "h": "prior", "db": "prior.db", "data": _src(case["db"], "string"),
+                         "kw": {"merge_strategy": "create_unique"}})
+                probes["prior_import_in_same_process"] = 1
             if not V:
                 r = call(n, {"op": "create", "h": "y", "db": "a.db", "data": _src(case["new"], case["form"]),
                              "kw": {"merge_strategy": "create_unique", "force": True}})
